@@ -28,6 +28,17 @@ def Src.read {α : Type} (s : Src α) (amount : Nat) : List α × Src α :=
     (s.data.take (min amount (max cap 1)),
      { data := s.data.drop (min amount (max cap 1)), script := rest })
 
+/-- `_read_from_fileobj(fileobj, amount)` (the D16 repair): keep reading until `amount` bytes are there
+or a read returns nothing.  `fuel` bounds the number of reads; `amount` is always enough because
+every read before the end returns at least one byte. -/
+def Src.readFully {α : Type} (s : Src α) : Nat → Nat → List α × Src α
+  | 0, _ => ([], s)
+  | fuel + 1, amount =>
+    if amount = 0 then ([], s)
+    else if (s.read amount).1.length = 0 then ([], (s.read amount).2)
+    else ((s.read amount).1 ++ (Src.readFully (s.read amount).2 fuel (amount - (s.read amount).1.length)).1,
+          (Src.readFully (s.read amount).2 fuel (amount - (s.read amount).1.length)).2)
+
 /-- state of `UploadNonSeekableInputManager`: `_initial_data` and the user stream -/
 structure NS (α : Type) where
   initial : List α
@@ -35,12 +46,12 @@ structure NS (α : Type) where
 
 /-- `_read(fileobj, amount)` with `truncate=True` -/
 def NS.readChunk {α : Type} (m : NS α) (amount : Nat) : List α × NS α :=
-  if m.initial.length = 0 then ((m.src.read amount).1, { m with src := (m.src.read amount).2 })
+  if m.initial.length = 0 then ((m.src.readFully amount amount).1, { m with src := (m.src.readFully amount amount).2 })
   else if amount ≤ m.initial.length then
     (m.initial.take amount, { m with initial := m.initial.drop amount })
   else
-    (m.initial ++ (m.src.read (amount - m.initial.length)).1,
-     { initial := [], src := (m.src.read (amount - m.initial.length)).2 })
+    (m.initial ++ (m.src.readFully (amount - m.initial.length) (amount - m.initial.length)).1,
+     { initial := [], src := (m.src.readFully (amount - m.initial.length) (amount - m.initial.length)).2 })
 
 /-- `yield_upload_part_bodies`: read parts until a read returns nothing -/
 def NS.parts {α : Type} : Nat → NS α → Nat → List (List α)
@@ -49,10 +60,11 @@ def NS.parts {α : Type} : Nat → NS α → Nat → List (List α)
     if (m.readChunk chunk).1.length = 0 then []
     else (m.readChunk chunk).1 :: NS.parts fuel (m.readChunk chunk).2 chunk
 
-/-- `requires_multipart_upload` for an unknown size: one `read(threshold)` kept as
-`_initial_data`; multipart iff it returned at least `threshold` bytes -/
+/-- `requires_multipart_upload` for an unknown size: `threshold` bytes (or the whole stream if it is
+shorter) are read and kept as `_initial_data`; multipart iff `threshold` bytes were there -/
 def NS.choose {α : Type} (s : Src α) (threshold : Nat) : Bool × NS α :=
-  (Nat.ble threshold (s.read threshold).1.length, { initial := (s.read threshold).1, src := (s.read threshold).2 })
+  (Nat.ble threshold (s.readFully threshold threshold).1.length,
+   { initial := (s.readFully threshold threshold).1, src := (s.readFully threshold threshold).2 })
 
 /-- `get_put_object_body`: `_initial_data + fileobj.read()` -/
 def NS.putBody {α : Type} (m : NS α) : List α := m.initial ++ m.src.data
